@@ -140,6 +140,9 @@ def gen_cases(rng, n):
             for t in c["tasks"]:
                 if t["auto"] and not t["need_fac"]:
                     t["sub"] = True
+        if c["wps"] and rng.random() < 0.08:
+            # an unlimited workplace: Python's json writes Infinity and reads it back as float("inf")
+            c["wps"][rng.randrange(len(c["wps"]))]["cap"] = "inf"
         stage = rng.choice(["fresh", "paused", "paused", "forward", "forward", "backward"])
         o = gen.gen_sim_op(rng, c)
         o["max_time"] = 40
